@@ -22,5 +22,80 @@ CLAIMS = {
   note="Bounded models; free-running executions are decided by the monitor only (no conformance spec for their interleavings); bytes are abstracted "
        "to (writer, number of pieces); disk I/O errors and misuse of a Writer (Commit twice, Write after Commit) are out of scope. Trusted: TLC, the projection in harness/cache.",
   technique="TLA+ spec + TLC exhaustive check; gated edge-cover replay of the TLC state graph into Go; TLC trace validation + property monitor (also on free-running -race executions)"),
+ "C06": dict(
+  text="Blob.tla models fs/remote blob.ReadAt/Cache with one action per critical section (cache probe + bytesWriter set-up, single-flight join/lead, "
+       "httpFetcher request per mode incl. 400->single-range and 403->refresh retries, per-chunk receive = cache commit + region add + copy through a "
+       "transcription of bytesWriter.Write under every split into Write calls, all-seen check, leader done, shared copy / retry with the same writers, "
+       "adjustBufferSize, cache loss, failing commit) against 12 honest-but-awkward registry personalities; RegionSet.tla is a line-by-line transcription "
+       "of regionSet.add checked exhaustively against set union. TLC checks ReadExact, ErrOrExact, RegionSetIsUnion, FetchedSize = distinct committed bytes, "
+       "<= size and monotone, with negative controls (all-seen check off, two writer off-by-ones, region-contains branch off). Binding: every edge of two "
+       "sequential generation graphs is replayed on a real blob (real httpFetcher, scripted in-memory RoundTripper, recording cache with drop/commit-failure, "
+       "1-byte-per-Read bodies) and the recorded requests/results/FetchedSize/region slice/cache content are validated by TLC against the spec; "
+       "free-running goroutines (directory cache with tiny LRU or memory cache, prefetch splitting, random personalities, chunk drops, -race) are judged by "
+       "the TLC monitor on every recorded result.",
+  design_ref="DESIGN.md 3 (C06), 2.4, 2.5",
+  note="Bounded: exhaustive sizes 0..5 (arith 0..7), chunk 1..3, <=2 calls, <=3 requests, 2 concurrent callers at size 3/chunk 2. Concurrent executions are "
+       "decided by the monitor only (no conformance spec, single-flight roles not observed); prefetch splitting only in free runs; Prepare and Fetch are single "
+       "spec steps; a registry that lies about Content-Range is out of scope; the walkChunks alignment check turned out not to be property-bearing. "
+       "Trusted: TLC, the projection in harness/fs/remote.",
+  technique="TLA+ spec + TLC exhaustive check; edge-cover replay of the TLC state graph into Go; TLC trace validation + property monitor (also on free-running -race executions)"),
+ "C14": dict(
+  text="Sort.tla transcribes importTar / moveRec / sortEntries / divideEntries and the stream decision of appendTar over a 12-entry universe (spellings ./x /x, "
+       "hard links, duplicates, implicit parents, pre-existing landmarks); the C14 formulas (ExactlyOneLandmark, EachAtMostOnce, NothingLostOrDuplicated, "
+       "PrioritizedFirstInOrder, ParentsAndTargetsBefore, RestKeepsRelativeOrder, MissingAbortsOrIsReported, LandmarkStartsOwnStream, PrioritizedDataBeforeLandmark, "
+       "NoOtherDataBefore) are written declaratively and checked by TLC over every tar of <=3-4 entries x every prioritized list of <=2 paths x allow-not-found, with 11 "
+       "negative controls. Binding: every enumerated case (about 10^4 in quick) is materialised as a real tar and built with the real estargz.Build (gzip, zstd:chunked, "
+       "external TOC; chunk sizes, min-chunk-size, 1-3 workers); an independent reader written from docs/estargz.md records entry order, stream layout, TOC offsets, "
+       "missed list / error; TLC validates each record against the spec and the monitor evaluates the formulas on the recorded layout alone. Found and fixed: listed "
+       "file under a directory without tar entry was 'not found' (6d65344).",
+  design_ref="DESIGN.md 3 (C14), 2.4, 2.5",
+  note="Not covered: symlinks/devices/xattrs/PAX long names, hard-link cycles (C04), directories nested deeper than one level, the GOMAXPROCS default worker count; "
+       "compressed sizes are not modelled (min-chunk decisions bound from the observation); quick draws one option set per case by seed. Trusted: TLC, the independent layout reader.",
+  technique="TLA+ transcription + TLC exhaustive enumeration with negative controls; every case replayed through the real builder; TLC trace validation + formula-only monitor on the recorded layout"),
+ "C03": dict(
+  text="Writer.tla transcribes the appendTar header/chunk loop (flush, new-stream-or-innerOffset decision, Offset/InnerOffset/ChunkSize rules), divideEntries, the parallel "
+       "sub-writers and closeWithCombine rebasing, and the lossless tail; formulas TocAddressesRightBytes (incl. chunk and file digests), ChunksTileFile, "
+       "OffsetsUniquePerStreamStart, EntriesPreserved, DiffIDIsHashOfDecompressed, TocDigestIsHashOfTocJSON, LosslessIdentity; 5 negative controls. Binding: TLC-enumerated "
+       "inputs (<=3 entries with sizes around the chunk size, plus fixed 5-entry inputs) x Build with 1-3 workers / NewWriter+AppendTar / AppendTarLossLess x gzip, zstd:chunked, "
+       "external TOC x min-chunk sizes are built by the real code; an independent reader (footer -> TOC; one gzip member / zstd frame at a time; archive/tar) records the observed "
+       "layout with SHA-256 content ids; TLC validates it as a behaviour of Writer.tla (compressed sizes bound from the observation) and the monitor evaluates the formulas on the record alone.",
+  design_ref="DESIGN.md 3 (C03), 2.4, 2.5",
+  note="Quick replays a seeded sample (about 1100 of 32648 combinations); RFC validity of members = the standard decoders accept them; not covered: repeated AppendTar calls on one "
+       "writer, already-eStargz or zstd-compressed input, xattrs/symlinks/devices; the offset of EMPTY files is not constrained by any C03 formula (a mutant there is spec drift, exit 2).",
+  technique="TLA+ transcription + TLC; builder outputs parsed by an independent reader; TLC trace validation + formula-only monitor on the recorded layout"),
+ "C18": dict(
+  text="Creds.tla models the CRI keychain (Pull records the auth before the backend call, Remove deletes, Query by exact reference, ParseAuth incl. docker.io aliases, "
+       "first-non-empty-wins composition); Fetcher.tla models newHTTPFetcher / fetch / check / refreshURL, the 401 retry and a registry personality script (direct, redirect, "
+       "locations expiring with 403, 401 challenge) with the (url, header) pair guarded by urlMu. TLC checks OnlyLatestPullOfExactRef, ServerAddressMustMatch, GoneAfterRemove, "
+       "FirstNonEmptyWins, ConfinedHeaders, ConfinedAuth exhaustively with one negative control per guard. Binding: every edge of the generation graphs is replayed on the real "
+       "code - request sequences against cri.NewCRIKeychain with a stub backend; interleavings forced on real goroutines through verifhook gates around the read of f.url and a "
+       "blocking in-memory registry - plus seeded random sequences and free-running -race executions; every http.Request (host, headers, Authorization) and every credential answer "
+       "is validated by TLC against the spec and the formulas are evaluated by the monitor. The torn read of (url, header) was reproduced on the pinned code and fixed (8be7b8b).",
+  design_ref="DESIGN.md 3 (C18), 2.4, 2.5, 7 item 6",
+  note="Bounded: 2 refs, <=3 pulls, 12 auth forms; 2 workers x <=2 operations, <=3 personality changes, 2 locations, one registry host. Creds requests are sequential. The 400 "
+       "fallback, multipart bodies and retryablehttp are not modelled; Authorization exercised with the docker authorizer in Basic mode only. Trusted: TLC, the drivers' projection.",
+  technique="TLA+ specs + TLC exhaustive check; edge-cover replay into Go (gated for interleavings); TLC trace validation + property monitor of replayed and free-running -race executions"),
+ "C20": dict(
+  text="Labels.tla transcribes the pull-side label writers (AppendDefaultLabelsHandlerWrapper, AppendExtraLabelsHandler over containerd's CRI labels, appendWithValidation with the "
+       "4096-byte limit exactly as checked) and the readers (FromDefaultLabels, sourceFromCRILabels, the sources chain) over abstract manifests (string lengths as integers); TLC "
+       "checks AllLabelsValid, RoundTrip, NeighbourUrlsPositional, PrefetchSizeRoundTrips, MalformedMandatoryRejected for every manifest of <=3-4 entries, a 55..60-layer family "
+       "crossing the limit, both flavours, every layer child and label removal/emptying/corruption, with 7 negative controls. Binding: every generated case is materialised as real "
+       "descriptors, run through the real handlers, labels.Validate and readers; TLC validates each recorded result against the spec and the monitor evaluates the formulas on the "
+       "recorded values alone. Found and fixed: urls.<i> indexed by child position instead of layer position (0e33758).",
+  design_ref="DESIGN.md 3 (C20), 2.4, 2.5",
+  note="Strings abstracted to (length, token ids); no ',' in URLs/refs; no pre-set remote/* annotations on input descriptors; an absent URL list read back as [\"\"] is treated as "
+       "no URL (only ipfs:// prefixes are consumed downstream); fs.Mount observed at the GetSources boundary. Trusted: TLC, the driver's materialisation.",
+  technique="TLA+ transcription + TLC exhaustive enumeration with negative controls; every case replayed through the real handlers/readers; TLC conformance + formula-only monitor"),
+ "C17": dict(
+  text="FuseMgr.tla models fusemanager.Server with one atomic action per RPC (Init with failure sites bad config / ConfigFunc / NewFileSystem and restore in key order stopping "
+       "at the first failure, Mount, Check, Unmount, Close), manager restart on the kept store file and crash points between the filesystem effect and the durable write. TLC checks "
+       "RecordEqualsServing, NoSecondMount, MapMatchesLive, ServedByCreator, NewMountsUseNewConfig, RestartRemountsRecordedWithLabels, UnknownUnmountOK, BeforeInitFails, NoPanic "
+       "exhaustively with a negative control for each of 10 guards. Binding: every edge of the generation graphs plus seeded random histories beyond the bounds is executed on the real "
+       "Server RPC methods with a real bolt store file; recording filesystems are injected through a verifhook seam after service.NewFileSystem; every recorded history is validated by TLC "
+       "against the spec and the C17 formulas are evaluated on the recorded states. Found and fixed: Mount after a failed first Init dereferenced a nil filesystem (291c12c).",
+  design_ref="DESIGN.md 3 (C17), 2.4, 2.5, 7 item 10",
+  note="Histories only (no concurrent RPCs); bolt commits assumed atomic; no foreign kernel mounts; no requests after Close; gRPC transport and client.go not exercised; "
+       "'restoration failed' is read as recorded-but-unserved when the last Init reported an error. Trusted: TLC, the projection in harness/fusemanager.",
+  technique="TLA+ spec + TLC exhaustive check with negative controls; edge-cover replay of the TLC state graphs into Go; TLC trace validation + property monitor of the recorded histories"),
 }
 NOT_APPLICABLE = {}
